@@ -85,7 +85,9 @@ func (k *KVStore) SetConfig(c *storage.Config) {
 func (k *KVStore) makeTable() error {
 	if len(k.tables) != 0 {
 		head := k.tables[len(k.tables)-1]
-		head.SetState(table.ReadOnlyState)
+		if head.State() == table.ReadWriteState {
+			head.SetState(table.ReadOnlyState)
+		}
 
 		for i, t := range k.tables {
 			if t.State() == table.RecycledState {
@@ -186,7 +188,9 @@ func (k *KVStore) PutRaw(hkey uint64, value []byte) error {
 		return storage.ErrEntryTooLarge
 	}
 
-	if len(k.tables) == 0 {
+	// After a transfer dropped the other tables, the last table may be a recycled one. It is
+	// neither registered for scans nor exported, so it must be put back into service first.
+	if len(k.tables) == 0 || k.tables[len(k.tables)-1].State() != table.ReadWriteState {
 		if err := k.makeTable(); err != nil {
 			return err
 		}
@@ -236,7 +240,9 @@ func (k *KVStore) Put(hkey uint64, value storage.Entry) error {
 		return storage.ErrEntryTooLarge
 	}
 
-	if len(k.tables) == 0 {
+	// After a transfer dropped the other tables, the last table may be a recycled one. It is
+	// neither registered for scans nor exported, so it must be put back into service first.
+	if len(k.tables) == 0 || k.tables[len(k.tables)-1].State() != table.ReadWriteState {
 		if err := k.makeTable(); err != nil {
 			return err
 		}
